@@ -98,7 +98,11 @@ def _circuit_queries(p, name, c, extra_constraints=(), describe=None, rebuild=No
     def build():
         dis, tot = [], []
         for entry in ("evaluate_full_circuit", "evaluate_circuit", "evaluate_circuit_outputs"):
-            fa = getattr(c, entry)(dict(A))
+            arg = dict(A)
+            fa = getattr(c, entry)(arg)
+            if set(arg) != set(A) or any(arg[k] is not A[k] for k in A):
+                # a reused assignment would carry stale values into the next, more defined, evaluation
+                dis.append((entry + ":writes-into-the-assignment-argument", None, z3.BoolVal(True)))
             fb = getattr(c, entry)(dict(B))
             for lab in fa:
                 va, vb = fa[lab], fb.get(lab, Undefined)
@@ -150,6 +154,8 @@ def _circuit_queries(p, name, c, extra_constraints=(), describe=None, rebuild=No
             + "B={" + ", ".join(f"{k!r}: {conc(v)}" for k, v in bv.items()) + "}\n"
             + "bad=[]\n"
             "for entry in ('evaluate_full_circuit','evaluate_circuit','evaluate_circuit_outputs'):\n"
+            "    arg=dict(A); getattr(c,entry)(arg)\n"
+            "    if arg!=A: bad.append((entry,'writes into the assignment argument'))\n"
             "    fa=getattr(c,entry)(dict(A)); fb=getattr(c,entry)(dict(B))\n"
             "    total=all(v!=Undefined for v in A.values())\n"
             "    for k,va in fa.items():\n"
